@@ -419,29 +419,15 @@ func (s *xsim) step(op fx.Ev) (string, fx.Ev, error) {
 		}
 		return "ok", extra, nil
 	case "mine":
-		// the order is the pool's own (GetUnconfirmedTx); it is recorded, not chosen
-		pending, err := st.GetUnconfirmedTx(false)
-		if err != nil {
-			return "", nil, err
+		// A mined block is two storage writes (ledger confirmation, then PlayForMiner); it is recorded as
+		// two events ("mkblock" on the pointer, then "pfm") by expand(); step never sees "mine".
+		return "", nil, fmt.Errorf("mine must be expanded")
+	case "pfm":
+		blk := s.blocks[op.Int("b")]
+		if blk == nil {
+			return "", nil, fmt.Errorf("unknown block %d", op.Int("b"))
 		}
-		names := []string{}
-		for _, t := range pending {
-			names = append(names, s.txName(t.Txid))
-		}
-		extra["txs"] = names
-		p := s.abs(st.GetLatestBlockid())
-		blk, err := s.build(p, names)
-		if err != nil {
-			return "", nil, err
-		}
-		ok, err := s.confirm(blk)
-		if err != nil {
-			return "", nil, err
-		}
-		if !ok {
-			return "fail_confirm", extra, nil
-		}
-		if err := st.PlayForMiner(s.blocks[s.n].Blockid); err != nil {
+		if err := st.PlayForMiner(blk.Blockid); err != nil {
 			extra["err"] = err.Error()
 			return "fail", extra, nil
 		}
@@ -476,6 +462,67 @@ func (s *xsim) step(op fx.Ev) (string, fx.Ev, error) {
 		return "ok", extra, nil
 	}
 	return "", nil, fmt.Errorf("unknown op %q", op.Str("op"))
+}
+
+// expand turns a generated "mine" into the two recorded operations: the block is packed from the pool in the
+// pool's own order (GetUnconfirmedTx; recorded, not chosen) on the pointer, then played for the miner.
+func (s *xsim) expand(op fx.Ev) ([]fx.Ev, error) {
+	if op.Str("op") != "mine" {
+		return []fx.Ev{op}, nil
+	}
+	pending, err := s.node.State.GetUnconfirmedTx(false)
+	if err != nil {
+		return nil, err
+	}
+	names := []interface{}{}
+	for _, t := range pending {
+		names = append(names, s.txName(t.Txid))
+	}
+	p := s.abs(s.node.State.GetLatestBlockid())
+	return []fx.Ev{{"op": "mkblock", "p": p, "txs": names, "mined": true}, {"op": "pfm", "b": s.n + 1}}, nil
+}
+
+// cuts reopens a node on the image after every prefix of the storage writes [a, b) the last operation issued
+// (crash points, C06): the projection of the reopened node, then of the same node after "sync to the ledger
+// tip" (Walk) followed by a roll-back of its pool.
+func (s *xsim) cuts(base string, a, b int) ([]fx.Ev, error) {
+	out := []fx.Ev{}
+	log := fx.LogSnapshot()
+	for j := 1; j <= b-a; j++ {
+		cname := s.name + "cut"
+		fx.CloneTree(fx.DataPrefix(base), fx.DataPrefix(cname))
+		fx.ApplyLog(log[:a+j], s.node.Root, fx.DataPrefix(cname))
+		c := fx.Ev{"j": j}
+		nd, err := fx.OpenNode(cname)
+		if err != nil {
+			c["obs"] = xObs{Total: "open failed: " + err.Error()}
+			out = append(out, c)
+			fx.DropTree(fx.DataPrefix(cname))
+			continue
+		}
+		c["obs"] = s.project(nd)
+		// sync to the ledger tip
+		for len(s.recover) > 0 {
+			<-s.recover
+		}
+		if err := nd.State.Walk(nd.Ledger.GetMeta().TipBlockid, false); err != nil {
+			c["syncres"] = "fail"
+		} else {
+			c["syncres"] = "ok"
+			select {
+			case <-s.recover:
+			case <-time.After(20 * time.Second):
+				return nil, fmt.Errorf("recoverUnconfirmedTx did not signal completion (cut)")
+			}
+		}
+		if _, _, err := nd.State.RollBackUnconfirmedTx(); err != nil {
+			c["syncres"] = "rollback failed: " + err.Error()
+		}
+		c["sync"] = s.project(nd)
+		out = append(out, c)
+		nd.Drop()
+	}
+	return out, nil
 }
 
 type keyObs struct {
@@ -608,6 +655,7 @@ func xstateReplay(args []string) error {
 	catf := fs.String("catalog", "", "catalogue JSON written by the Gen module")
 	window := fs.Int("window", 0, "irreversible slide window of the chain")
 	reopen := fs.Bool("reopen", false, "also project a node reopened on a copy of the data after every step")
+	cutsOn := fs.Bool("cuts", false, "reopen a node after every prefix of each operation's storage writes (crash points)")
 	scale := fs.String("scale", "1", "factor applied to every abstract amount (decimal)")
 	enc := fs.String("enc", "", "lz = outputs carry a leading zero byte")
 	fs.Parse(args)
@@ -628,41 +676,89 @@ func xstateReplay(args []string) error {
 		return err
 	}
 	defer tw.Close()
-	ops := 0
+	ops, ncuts := 0, 0
 	for k, beh := range behs {
 		s, err := newXSim(fmt.Sprintf("X%d", k), cat, *window)
 		if err != nil {
 			return err
 		}
 		tw.Emit(fx.Ev{"op": "reset", "tr": k})
-		for i, op := range beh {
-			res, extra, err := s.step(op)
+		base := s.name + "base"
+		if *cutsOn {
+			fx.CloneTree(s.node.Root, fx.DataPrefix(base))
+			fx.StartLog()
+		}
+		i := 0
+		for _, gop := range beh {
+			sub, err := s.expand(gop)
 			if err != nil {
-				return fmt.Errorf("behaviour %d step %d (%v): %v", k, i, op, err)
+				return fmt.Errorf("behaviour %d (%v): %v", k, gop, err)
 			}
-			ev := fx.Ev{"tr": k, "i": i}
-			for kk, v := range op {
-				ev[kk] = v
-			}
-			for kk, v := range extra {
-				ev[kk] = v
-			}
-			ev["res"] = res
-			ev["obs"] = s.project(s.node)
-			if *reopen {
-				r, err := s.node.Clone(s.name + "r")
+			for _, op := range sub {
+				a := fx.LogLen()
+				res, extra, err := s.step(op)
 				if err != nil {
-					ev["reopen_err"] = err.Error()
-				} else {
-					ev["robs"] = s.project(r)
-					r.Drop()
+					return fmt.Errorf("behaviour %d step %d (%v): %v", k, i, op, err)
 				}
+				ev := fx.Ev{"tr": k, "i": i}
+				for kk, v := range op {
+					ev[kk] = v
+				}
+				for kk, v := range extra {
+					ev[kk] = v
+				}
+				ev["res"] = res
+				ev["obs"] = s.project(s.node)
+				if *reopen {
+					r, err := s.node.Clone(s.name + "r")
+					if err != nil {
+						ev["reopen_err"] = err.Error()
+					} else {
+						ev["robs"] = s.project(r)
+						r.Drop()
+					}
+				}
+				if *cutsOn {
+					b := fx.LogLen()
+					if op.Str("op") == "walk" {
+						// order in which rolled-back transactions were re-admitted: each re-admission is one
+						// write that puts the transaction into the unconfirmed table
+						order := []string{}
+						for _, e := range fx.LogSnapshot()[a:b] {
+							for _, o := range e.Ops {
+								if !o.Del && strings.HasPrefix(string(o.K), pb.UnconfirmedTablePrefix) && strings.HasSuffix(e.Path, "/utxoVM") {
+									order = append(order, s.txName(o.K[len(pb.UnconfirmedTablePrefix):]))
+								}
+							}
+						}
+						ev["readmit"] = order
+					}
+					cs, err := s.cuts(base, a, b)
+					if err != nil {
+						return err
+					}
+					if len(cs) > 0 {
+						ev["cuts"] = cs
+						ncuts += len(cs)
+					}
+					state.VerifHook = func(site string) {
+						if site == "recover_done" {
+							s.recover <- struct{}{}
+						}
+					}
+				}
+				tw.Emit(ev)
+				ops++
+				i++
 			}
-			tw.Emit(ev)
-			ops++
+		}
+		if *cutsOn {
+			fx.StopLog()
+			fx.DropTree(fx.DataPrefix(base))
 		}
 		s.node.Drop()
 	}
-	fmt.Printf("{\"behaviours\":%d,\"ops\":%d}\n", len(behs), ops)
+	tw.Emit(fx.Ev{"op": "reset", "tr": len(behs)}) // closing line: the last operation's cut is judged one step later
+	fmt.Printf("{\"behaviours\":%d,\"ops\":%d,\"cuts\":%d}\n", len(behs), ops, ncuts)
 	return nil
 }
